@@ -45,6 +45,7 @@ LEVEL = {
 LEVEL["decided"] += ' The unwind table distinguishes exits that fail when *called* (synchronous exits wrapped for awaiting) from exits that fail when awaited: 312 scenarios.'
 LEVEL["decided"] += ' (R14.7) no finally block of the unwind can replace its outcome; R14.5 accepts a closure or pre-bound partial as the registered runner under the same obligations.'
 LEVEL["decided"] += " (R14.8) callbacks keep the keyword arguments they were registered with (R03.13, shared); (R14.9) a stack can be closed again after a close that ended with an exception: exits registered in between run (evaluated as a history on the model with the stack's own fields)."
+LEVEL["decided"] += " (R14.10) awaitify's wrapper cannot intercept and retry a failing exit (C06's census on _core, shared); force_async is applied by awaitify itself or to a synchronous protocol method only."
 LEVEL["technique"] += "; re-close history on the model with the stack's own fields"
 
 STACK_ATTR = "_exit_callbacks"  # re-derived from ExitStack.__init__ on every run (_derive_stack_attr)
